@@ -325,6 +325,15 @@ Theorem C01_h3_reader_any_interleaving :
     wf_bytes (hist_flat h) -> no_fail (rfc_stream_reading_with FrameDec.settings_verdict (hist_flat h)) ->
     merge_items [] items = rfc_stream_reading_with FrameDec.settings_verdict (hist_flat h).
 Proof. exact c03_reader_law. Qed.
+(* splitting the request stream into halves at ANY point of the history (before any call, mid-body, after end-of-body
+   before recv_trailers, ...) does not change what the receive side hands up: the receive half starts from exactly the
+   whole stream's receive state - which fields RequestStream::split / FrameStream::split / BufRecvStream::split hand
+   over is read from the source on every run (Gen/GenSplit.v).  With it C01_request_fidelity / C01_response_fidelity
+   hold for split streams as well. *)
+Theorem C01_split_point_irrelevant :
+  forall r (h : list (option hevent)) s,
+    c03_run_split r h s = rx_run c03_state c03_arrive c03_fin (c03_poll r) (without_splits h) s.
+Proof. exact split_point_irrelevant. Qed.
 Theorem C01_layout_reads_back :
   forall hb pieces tb g,
     len hb < 2 ^ 62 -> Forall (fun p => len p < 2 ^ 62) pieces -> match tb with Some b => len b < 2 ^ 62 | None => True end ->
@@ -381,3 +390,4 @@ Print Assumptions C01_written_bytes_any_script.
 Print Assumptions C01_layout_reads_back.
 Print Assumptions C01_field_section_roundtrip.
 Print Assumptions C01_h3_reader_any_interleaving.
+Print Assumptions C01_split_point_irrelevant.
